@@ -419,7 +419,8 @@ pub fn all_scalars(stride: u32) -> Value {
             chunk.push(c);
             n += 1;
         }
-        cp += stride;
+        // every code point below U+0300 (all controls, Latin-1, the escape-relevant ASCII), strided above
+        cp += if cp < 0x300 { 1 } else { stride };
         if chunk.len() >= 256 || cp > 0x10ffff {
             // object whose member names are the single characters (inserted in reverse) and whose values hold them
             let mut m = serde_json::Map::new();
